@@ -7,6 +7,7 @@ from front import AnalysisError
 from report import Result, Ob, eq_ob, req_ob
 import rules_solver as RS
 from rules_solver import SolverAnalysis, views, pick, atom_of
+from solver_model import run_solver
 
 TRUST_NUMPY = "S-NUMPY: documented semantics of the numpy/pyfftw calls on the analysed paths (fft2/ifft2 direction and norm, fftshift/ifftshift, fftfreq, meshgrid, pad, linspace, diff, unique, boolean-mask indexing)"
 TRUST_ALG = "the checker's exact algebra (rational functions over Q[i], equality by clearing denominators) and its abstract interpreter"
@@ -48,6 +49,7 @@ def solver_check(fn):
         R.add(dtype_obs(SA))
         R.add(index_obs(SA))
         R.add(argument_obs(SA))
+        R.add(zero_halo_obs(P))
         R.add(layout_obs(SA))
         # the solver rules are decided for one solve in a fresh process; they hold for every call only if a solve
         # cannot observe an earlier one (module-level state on the solve path: R-STATE / R-MEMO, shared with C12)
@@ -78,6 +80,40 @@ def dtype_obs(SA):
     if not seen:
         return [req_ob("R-DTYPE", site, "no computed value is stored into storage typed by a caller's array (integer grids, profiles and sources are not truncated) (%d paths)" % n, True)]
     return [req_ob("R-DTYPE", site, "no computed value is stored into storage typed by a caller's array", False, detail="%s: %s" % k, key={"where": k[0]}) for k in sorted(seen)]
+
+
+_ZERO_HALO = {}
+
+
+def zero_halo_obs(P):
+    """R-ARGS: a halo of width zero is a request like any other (no padding): only an absent halo selects the default.  The
+    solver is interpreted with halo = 0; every transform must then be taken on the grid of the source field itself."""
+    key = P.digest()
+    if key in _ZERO_HALO:
+        return _ZERO_HALO[key]
+    site = "src/bldfm/solver.py::steady_state_transport_solver (halo = 0)"
+    obs = []
+    try:
+        S, res = run_solver(P, True, False, halo="zero")
+    except AnalysisError as e:
+        obs.append(req_ob("R-ARGS", site, "the solver can be interpreted with a halo of width zero", None, detail=str(e)[:200]))
+        _ZERO_HALO[key] = obs
+        return obs
+    rets = [r for r in res if r.kind == "return" and not any(d[0].startswith("unknown test") for d in r.path)]
+    bad, seen = None, 0
+    for r in rets:
+        for c in r.calls:
+            if c[0].split(".")[-1] in ("fft2", "ifft2") and c[1] and isinstance(c[1][0], Arr) and c[1][0].shape is not None and len(c[1][0].shape) >= 2:
+                seen += 1
+                sy, sx = c[1][0].shape[-2], c[1][0].shape[-1]
+                direct = (sy.eq(S.ny) and sx.eq(S.nx)) or (sy.eq(S.nly) and sx.eq(S.nlx))
+                if not direct and bad is None:
+                    bad = "%s at line %s works on a %r x %r grid" % (c[0].split(".")[-1], getattr(c[3], "lineno", "?"), sy, sx)
+    verdict = None if not seen else bad is None
+    obs.append(req_ob("R-ARGS", site, "with halo = 0 every transform is taken on the unpadded source grid or on the retained modes (a zero width is not replaced by the default)", verdict,
+                      detail=bad, key={"clause": "zero halo"}))
+    _ZERO_HALO[key] = obs
+    return obs
 
 
 def argument_obs(SA):
